@@ -110,8 +110,6 @@ func VH_C13() {
 			break
 		}
 		vsym.Reach("C13/truncated")
-		// recorded finding: s3mem never fills in the continuation markers
-		vsym.KnownRegion("KF-C13-version-paging-markers", true)
 		vsym.Assert(v.NextKeyMarker != "", "C13/truncated-has-key-marker")
 		vsym.Assert(v.NextVersionIDMarker != "", "C13/truncated-has-version-marker")
 		if v.NextKeyMarker == "" {
